@@ -112,8 +112,12 @@ package unserializers
 // reader side of external references: one protobom reference per CycloneDX reference, in order,
 // with its URL, comment and mapped type; every hash value of the result is a hash value of that reference
 //@ func CDX.unserializeExternalReferences
-//@   props C02
-//@   inline
+//@   props C02, C04
+//@   assigns \nothing
+//@   ensures fresh(arr(result))
+//@   invariant L0: fresh(arr(ret))
+//@   invariant L1: fresh(arr(ret))
+//@   ensures [C02:cdx:extrefs:fresh] forall a int :: 0 <= a && a < len(result) ==> result[a] != nil && fresh(result[a]) && result[a].Hashes != nil && fresh(result[a].Hashes)
 //@   ensures [C02:cdx:extrefs:count] (cdxReferences == nil ==> len(result) == 0) && (cdxReferences != nil ==> len(result) == len(*cdxReferences))
 //@   ensures [C02:cdx:extrefs:scalars] cdxReferences != nil ==> (forall a int :: 0 <= a && a < len(result) ==> result[a] != nil && result[a].Url == (*cdxReferences)[a].URL && result[a].Comment == (*cdxReferences)[a].Comment && result[a].Type == CDX.cdxExtRefTypeToProtobomType(nil, (*cdxReferences)[a].Type))
 //@   ensures [C02:cdx:extrefs:hashes] cdxReferences != nil ==> (forall a int, k int32 :: 0 <= a && a < len(result) && (k in result[a].Hashes) ==> (*cdxReferences)[a].Hashes != nil && (exists j int :: 0 <= j && j < len(*(*cdxReferences)[a].Hashes) && result[a].Hashes[k] == (*(*cdxReferences)[a].Hashes)[j].Value))
@@ -136,9 +140,11 @@ package unserializers
 //@   ensures [C05:cdx:idNonEmpty] result0 != nil ==> result0.Id != ""
 //@   requires [C02:pre] c != nil && cc != nil
 //@   ensures [C02:cdx:node:scalars] result1 == nil && result0 != nil && cdxNodeOf(result0, c)
+//@   ensures [C02:cdx:node:hashes] result0 != nil && result0.Hashes != nil && (forall k int32 :: (k in result0.Hashes) ==> c.Hashes != nil && (exists j int :: 0 <= j && j < len(*c.Hashes) && result0.Hashes[k] == (*c.Hashes)[j].Value))
 //@   ensures [C02:cdx:node:extrefs] result0 != nil && cdxNodeRefsOf(result0, c) && cdxNodeRefHashesOf(result0, c)
 //@   invariant L0: [C02:inv] node != nil && fresh(node) && node.Identifiers != nil && node.Hashes != nil && node.Identifiers != node.Hashes
 //@   invariant L0: [C02:inv] cdxNodeRefsOf(node, c) && cdxNodeRefHashesOf(node, c) && (forall a int :: 0 <= a && a < len(node.ExternalReferences) ==> node.ExternalReferences[a].Hashes != node.Hashes && node.ExternalReferences[a].Hashes != node.Identifiers)
+//@   invariant L0: [C02:inv] forall k int32 :: (k in node.Hashes) ==> (exists j int :: 0 <= j && j < _i && node.Hashes[k] == (*c.Hashes)[j].Value)
 //@   invariant L0: [C02:inv] c.PackageURL != "" ==> (1 in node.Identifiers) && node.Identifiers[1] == c.PackageURL
 
 // writer contract + reader contract ==> the scalar attributes, the purl and the file kind survive
@@ -146,5 +152,8 @@ package unserializers
 // writer contract + reader contract ==> external references survive in number, order, URL and comment, their type
 // when the writer's table maps it to a native CycloneDX type, and every hash value read back was written for that reference
 //@ lemma cdxExtRefsRoundTrip [C02]: forall c *cyclonedx.Component, n *sbom.Node, m *sbom.Node :: c != nil && n != nil && m != nil && serializers.cdxCompRefsOf(c, n) && serializers.cdxCompRefHashesOf(c, n) && cdxNodeRefsOf(m, c) && cdxNodeRefHashesOf(m, c) ==> len(m.ExternalReferences) == len(n.ExternalReferences) && (forall a int :: 0 <= a && a < len(n.ExternalReferences) ==> m.ExternalReferences[a].Url == n.ExternalReferences[a].Url && m.ExternalReferences[a].Comment == n.ExternalReferences[a].Comment && m.ExternalReferences[a].Type == CDX.cdxExtRefTypeToProtobomType(nil, serializers.CDX.protobomExtRefTypeToCdxType(nil, n.ExternalReferences[a].Type)) && (forall k int32 :: (k in m.ExternalReferences[a].Hashes) ==> (exists k2 int32 :: (k2 in n.ExternalReferences[a].Hashes) && m.ExternalReferences[a].Hashes[k] == n.ExternalReferences[a].Hashes[k2])))
+
+// node hashes: every hash value read back for a node was written for that node
+//@ lemma cdxNodeHashesRoundTrip [C02]: forall c *cyclonedx.Component, n *sbom.Node, m *sbom.Node :: c != nil && n != nil && m != nil && c.Hashes != nil && (forall j int :: 0 <= j && j < len(*c.Hashes) ==> (exists k int32 :: (k in n.Hashes) && (*c.Hashes)[j].Value == n.Hashes[k])) && (forall k int32 :: (k in m.Hashes) ==> (exists j int :: 0 <= j && j < len(*c.Hashes) && m.Hashes[k] == (*c.Hashes)[j].Value)) ==> (forall k int32 :: (k in m.Hashes) ==> (exists k2 int32 :: (k2 in n.Hashes) && m.Hashes[k] == n.Hashes[k2]))
 
 //@ lemma cdxComponentScalarsRoundTrip [C02]: forall c *cyclonedx.Component, n *sbom.Node, m *sbom.Node :: c != nil && n != nil && m != nil && n.Id != "" && serializers.cdxCompOf(c, n) && cdxNodeOf(m, c) ==> m.Id == n.Id && m.Name == n.Name && m.Version == n.Version && m.Description == n.Description && m.Copyright == n.Copyright && ((n.Identifiers != nil && (1 in n.Identifiers) && n.Identifiers[1] != "") ==> (1 in m.Identifiers) && m.Identifiers[1] == n.Identifiers[1]) && (n.Type == 1 && CDX.componentTypeToPurpose(nil, "file") == 12 ==> m.Type == 1)
